@@ -36,6 +36,7 @@ LOCATIONS = {
     "port": "http://a:81/n{i}",
     "scheme": "https://a/n{i}",
     "host": "http://b/n{i}",
+    "subdomain": "http://s.a/n{i}",
     "creds": "http://u:p@b/n{i}",
     "relative": "rel{i}",
     "scheme-relative": "//b/n{i}",
@@ -201,6 +202,9 @@ def chain(ctx, nhops=2, first_loc=None, methods=("GET", "POST", "PUT", "HEAD"), 
             return fail("jar-cookie-of-other-host-sent", hop=i)
         if host == "b" and "jb=1" not in cookie:
             return fail("jar-cookie-not-reselected-for-hop", hop=i)
+        if host == "s.a" and ("ja=1" in cookie or "jb=1" in cookie):
+            # ja was set by host a without a Domain attribute: host-only, not for its sub-domains
+            return fail("host-only-jar-cookie-sent-to-subdomain", hop=i)
         # URL-embedded credentials belong to that hop only
         if i > 0 and hops[i - 1][1] == "creds":
             want = "Basic " + base64.b64encode(b"u:p").decode()
@@ -247,14 +251,14 @@ def jobs(tier):
     for loc in LOCATIONS:
         out.append(dict(name=f"chain2-{loc}", func="chain",
                         params=dict(nhops=2, first_loc=loc, methods=["GET", "POST"] if quick else ["GET", "POST", "PUT", "HEAD"],
-                                    locs=["same", "host", "back", "relative", "scheme-relative", "creds"] if quick else None,
+                                    locs=["same", "host", "back", "relative", "scheme-relative", "creds", "subdomain"] if quick else None,
                                     small=quick),
                         limits=lim))
     if not quick:
         for loc in ("host", "creds", "scheme-relative", "port", "scheme"):
             out.append(dict(name=f"chain3-{loc}", func="chain",
                             params=dict(nhops=3, first_loc=loc, methods=["GET", "POST"],
-                                        locs=["same", "host", "back", "creds", "scheme-relative"]), limits=lim))
+                                        locs=["same", "host", "back", "creds", "scheme-relative", "subdomain"]), limits=lim))
     return out
 
 
